@@ -75,8 +75,21 @@ def run(tier):
                 if len(R.notes) < 5: R.notes.append(f"{name}({sa} ; {sb}): model text {res[1]!r} implementation {exp[1]!r}")
             else:
                 R.disagree(f"{name}: model evaluation/text of the result structure", dict(a=sa, b=sb, result=str(r)), res[:6], exp[:6])
-    M.close(); F.close()
-    return R.finish(K.TRUSTED, ASSUME, RULE, "make -C coq Properties/C07.vo && coqc Properties/C07.v (Print Assumptions)")
+    M.close()
+    def judge_pair(sa, sb):
+        a, bm = K.parse(sa), K.parse(sb)
+        if a is None or bm is None or isinstance(a, Exception) or isinstance(bm, Exception): return None
+        d, _ = judge(a, bm, ienv, F)
+        # the region of the listed finding D35 is not a new violation
+        return None if (d and MI.two_reversed_substring_leaves(sa, sb)) else d
+    def fresh(Rn):
+        for _ in range(300 if tier == "quick" else 3000):
+            (sa, _, _), (sb, _, _) = K.gen_pair(rng, tier); yield (sa, sb)
+    try:
+        return R.finish(K.TRUSTED, ASSUME, RULE, "make -C coq Properties/C07.vo && coqc Properties/C07.v (Print Assumptions)",
+                        search=K.make_marker_search(judge_pair=judge_pair, fresh=fresh))
+    finally:
+        F.close()
 
 def replay(rep):
     c = rep["case"]; F = common.Ref()
